@@ -22,7 +22,7 @@ JOBS = {'quick': 4, 'thorough': 16}
 REQUIRED_MONITORS = ('output_vs_truth', 'map_call_log', 'early_extrapolation_refused', 'em_shape_contract')
 REQUIRED_CLASSES = ('species:unmapped-interleaved', 'solvent', 'box:triclinic', 'box:rect', 'ref:1-atom', 'ref:2-atoms',
                     'ref:general', 'multi-residue', 'order:random', 'order:blocks', 'order:alternating', 'shipped-bmim-bf4',
-                    'early:no-maps', 'early:no-end-molecules', 'early:partial-maps', 'residue-numbers:gaps-inside-a-mapped-multi-residue-molecule', 'output-atoms:>=100000', 'target:one-atom-first-in-file')
+                    'early:no-maps', 'early:no-end-molecules', 'early:partial-maps', 'residue-numbers:gaps-inside-a-mapped-multi-residue-molecule', 'output-atoms:>=100000', 'target:one-atom-first-in-file', 'species:homopolymer-neighbours')
 RULE = ('generated systems: 2-4 species (1-, 2-, many-bead; single and multi-residue) + solvent, 1..60 instances each in '
         'random/blocked/alternating order, a random non-empty subset of species given an end molecule, rectangular and '
         'triclinic boxes, s in {0.3,0.5,1,1.5}; plus the shipped BMIM/BF4 box. Non-trivial: at least two mapped species or a '
@@ -189,6 +189,7 @@ def run_gen(ctx, case):
                              order=order, box_kind=box_kind, with_vel=bool(rng.random() < 0.3), sizes_hint=hint,
                              end_for=None if not hint else None, resid_mode='gaps' if i % 3 == 1 else 'consecutive',
                              multi_res_prob=0.6 if i % 3 == 1 else 0.35, coarsen=(i % 7 == 3),
+                             homopolymer_prob=0.5 if i % 5 == 2 else 0.0,
                              small_prob=0.6 if i % 7 == 3 else 0.3)
         if i % 7 == 3:
             ctx.hit('direction:towards-coarser-resolution')
@@ -201,6 +202,11 @@ def run_gen(ctx, case):
         ctx.hit('residue-numbers:gaps-and-restarts')
         if any(len(w['species'][n]['sizes']) > 1 for n in w['end_for']):
             ctx.hit('residue-numbers:gaps-inside-a-mapped-multi-residue-molecule')
+    for n_ in w['end_for']:
+        if w['species'][n_].get('homopolymer') or w['end_species'][n_].get('homopolymer'):
+            ctx.hit('species:homopolymer-mapped')
+            if any(a == n_ and b == n_ for a, b in zip(w['sequence'], w['sequence'][1:])):
+                ctx.hit('species:homopolymer-neighbours')
     if len(w['title'].encode()) != len(w['title']):
         ctx.hit('title:multibyte-characters')
     s = float(rng.choice([0.3, 0.5, 1.0, 1.5]))
